@@ -42,6 +42,8 @@ func TestGovcReplay(t *testing.T) {
 			[]string{"-ab", "val", "x"}, []string{"-ab", "val", "x"}, false},
 		{"require order stops at an unknown option", "pair.unknown.stop", func(o *GetOpt) { o.SetUnknownMode(Pass); o.SetRequireOrder(); o.Bool("known", false) },
 			[]string{"--unk", "--known", "z"}, []string{"--unk", "--known", "z"}, false},
+		{"slice option without an upper limit takes several values", "makeslice", func(o *GetOpt) { o.StringSlice("files", 1, int(^uint(0)>>1)) }, []string{"--files", "a", "b", "--", "x"}, []string{"x"}, false},
+		{"map option without an upper limit takes several values", "makeslice", func(o *GetOpt) { o.StringMap("kv", 1, int(^uint(0)>>1)) }, []string{"--kv", "a=1", "b=2", "--", "x"}, []string{"x"}, false},
 		{"terminator ends parsing", "term.stops", func(o *GetOpt) { o.Bool("flag", false) }, []string{"a", "--", "--flag", "b"}, []string{"a", "--flag", "b"}, false},
 		{"require order stops at first positional", "text.stop", func(o *GetOpt) { o.Bool("flag", false); o.SetRequireOrder() }, []string{"a", "--flag"}, []string{"a", "--flag"}, false},
 	}
@@ -59,7 +61,16 @@ func TestGovcReplay(t *testing.T) {
 		ran++
 		opt := New()
 		c.setup(opt)
-		rem, err := opt.Parse(c.args)
+		var rem []string
+		var err error
+		func() {
+			defer func() {
+				if r := recover(); r != nil {
+					t.Fatalf("GOVC-REPLAY-CONFIRMED: %s: Parse(%q) panicked: %v", c.name, c.args, r)
+				}
+			}()
+			rem, err = opt.Parse(c.args)
+		}()
 		t.Logf("%s: Parse(%q) -> %q, %v", c.name, c.args, rem, err)
 		if c.wantErr {
 			if err == nil {
